@@ -21,7 +21,10 @@ pub enum Op {
     Start,
     Lock(usize),
     Wait { cv: usize, mutex: usize },
-    /// After having been notified: take the mutex again.
+    /// `Condvar::wait_timeout`: woken by a notification, or by its time-out, which elapses only when
+    /// nothing else can run (after the idling threads, unless an early time-out is allowed).
+    WaitTimeout { cv: usize, mutex: usize },
+    /// After having been notified (or timed out): take the mutex again.
     Reacquire(usize),
     Notify { cv: usize, all: bool },
     Atomic { id: usize, store: bool },
@@ -62,6 +65,10 @@ struct State {
     diverged: Option<String>,
     lock_order: Vec<(usize, usize)>,
     started: bool,
+    /// time-outs allowed to elapse although an idling thread (another timer) could run first
+    early_timeouts: usize,
+    early_timeouts_used: usize,
+    timeouts_fired: usize,
 }
 
 pub struct Sched {
@@ -90,6 +97,15 @@ impl Sched {
         })
     }
 
+    /// Allows up to `n` time-outs per execution to elapse before a pending idle step (timer order deviation).
+    pub fn allow_early_timeouts(&self, n: usize) {
+        self.lock().early_timeouts = n;
+    }
+
+    pub fn timeouts_fired(&self) -> usize {
+        self.lock().timeouts_fired
+    }
+
     fn lock(&self) -> std::sync::MutexGuard<'_, State> {
         match self.st.lock() {
             Ok(g) => g,
@@ -107,6 +123,7 @@ impl Sched {
             Op::Start => "start".into(),
             Op::Lock(m) => format!("lock({})", n(m)),
             Op::Wait { cv, mutex } => format!("wait({},{})", n(cv), n(mutex)),
+            Op::WaitTimeout { cv, mutex } => format!("wait_timeout({},{})", n(cv), n(mutex)),
             Op::Reacquire(m) => format!("reacquire({})", n(m)),
             Op::Notify { cv, all } => format!("notify{}({})", if *all { "_all" } else { "_one" }, n(cv)),
             Op::Atomic { id, store } => format!("{}({})", if *store { "store" } else { "load" }, n(id)),
@@ -115,7 +132,8 @@ impl Sched {
     }
 
     /// Called by a controlled thread: publish `op`, park until scheduled, then apply its effect.
-    fn point(&self, tid: usize, op: Op) {
+    /// Returns the operation that was finally performed (a wait turns into a re-acquisition when notified).
+    fn point(&self, tid: usize, op: Op) -> Op {
         let mut st = self.lock();
         if st.teardown {
             drop(st);
@@ -144,7 +162,7 @@ impl Sched {
         // scheduled: apply the effect on the model
         let op = st.threads[tid].pending.take().unwrap();
         st.threads[tid].parked = false;
-        match op {
+        match op.clone() {
             Op::Lock(m) | Op::Reacquire(m) => {
                 let held: Vec<usize> = st.threads[tid].held.clone();
                 for h in held {
@@ -156,7 +174,7 @@ impl Sched {
             Op::Notify { cv, all } => {
                 let mut woke = false;
                 for t in 0..st.threads.len() {
-                    if let Some(Op::Wait { cv: c, mutex }) = st.threads[t].pending.clone() {
+                    if let Some(Op::Wait { cv: c, mutex }) | Some(Op::WaitTimeout { cv: c, mutex }) = st.threads[t].pending.clone() {
                         if c == cv && (all || !woke) {
                             st.threads[t].pending = Some(Op::Reacquire(mutex));
                             woke = true;
@@ -164,8 +182,12 @@ impl Sched {
                     }
                 }
             }
+            Op::WaitTimeout { .. } => {
+                st.timeouts_fired += 1;
+            }
             _ => {}
         }
+        op
     }
 
     fn unlocked(&self, tid: usize, m: usize) {
@@ -199,6 +221,7 @@ impl Sched {
     fn enabled(st: &State) -> Vec<usize> {
         let mut v = Vec::new();
         let mut idle = Vec::new();
+        let mut timeouts = Vec::new();
         for (t, th) in st.threads.iter().enumerate() {
             if th.finished || !th.parked {
                 continue;
@@ -210,6 +233,10 @@ impl Sched {
                     idle.push(t);
                     false
                 }
+                Some(Op::WaitTimeout { .. }) => {
+                    timeouts.push(t);
+                    false
+                }
                 Some(_) => true,
                 None => false,
             };
@@ -219,7 +246,14 @@ impl Sched {
         }
         // idling threads go on only when nothing else can
         if v.is_empty() {
-            v = idle;
+            if idle.is_empty() {
+                v = timeouts;
+            } else {
+                v = idle;
+                if st.early_timeouts_used < st.early_timeouts {
+                    v.extend(timeouts);
+                }
+            }
         }
         v
     }
@@ -283,6 +317,9 @@ impl Sched {
                 continue;
             }
             let t = en[choice];
+            if matches!(st.threads[t].pending, Some(Op::WaitTimeout { .. })) && st.threads.iter().any(|th| !th.finished && th.parked && matches!(th.pending, Some(Op::Idle))) {
+                st.early_timeouts_used += 1;
+            }
             let op = st.threads[t].pending.as_ref().map(|o| Self::op_name(&st, o)).unwrap_or_default();
             st.points.push(PointRec { enabled: en.clone(), chosen: choice, running_still_enabled, op: format!("T{t}:{op}") });
             st.running = Some(t);
@@ -319,6 +356,17 @@ impl Hooks for HookTable {
             self.0.unlocked(t, mutex);
             self.0.point(t, Op::Wait { cv: condvar, mutex });
         }
+    }
+    fn wait_timeout(&self, condvar: usize, mutex: usize) -> bool {
+        if let Some(t) = TID.with(|t| t.get()) {
+            self.0.unlocked(t, mutex);
+            if let Op::WaitTimeout { .. } = self.0.point(t, Op::WaitTimeout { cv: condvar, mutex }) {
+                // the time-out elapsed: take the mutex again like anybody else
+                self.0.point(t, Op::Reacquire(mutex));
+                return true;
+            }
+        }
+        false
     }
     fn notify(&self, condvar: usize, all: bool) {
         if let Some(t) = TID.with(|t| t.get()) {
